@@ -1084,3 +1084,38 @@ def sizes_oracle(case):
 SUBS.append(Sub("C05.sizes-around-round-numbers", sizes_oracle,
                 enumerate=sizes_enum, shards=(16, 16), budget=(600, 3600),
                 bucket=lambda msg: bucket(msg.split("]: ", 1)[-1])))
+
+
+# ------------------------------------------------ sweep of the AD statistic
+# The p-value code of the Anderson-Darling test switches formulas and tables
+# with the value of the statistic: samples (i+0.5)/n raised to a power p sweep
+# it continuously from large through its minimum and back.
+def adsweep_enum(tier):
+    k = 300 if tier == "quick" else 3000
+    for n in ((6, 13) if tier == "quick" else (3, 5, 6, 13, 40, 200)):
+        for j in range(k):
+            yield {"n": n, "p": float(np.exp(np.log(0.3) + j / (k - 1)
+                                            * (np.log(4.0) - np.log(0.3)))),
+                   "extreme": True}
+
+
+def adsweep_call(c):
+    u = ((np.arange(c["n"]) + 0.5) / c["n"]) ** c["p"]
+    metrics.anderson_darling_test(u)
+    metrics.cramer_von_mises_test(u)
+    metrics.alpha(u * 10, np.sort(np.tile(np.arange(11.), (c["n"], 1)),
+                                   axis=1), type="AD")
+
+
+def adsweep_oracle(case):
+    res = forked(lambda: seeded(adsweep_call, case))
+    if res == "TIMEOUT":
+        return {"nt": False, "labels": ["timeout:inconclusive"]}
+    if res is not None:
+        raise Violation(f"sanitizer/crash [{bucket(res)}]: {res}")
+    return {"nt": True, "labels": [f"n:{case['n']}"]}
+
+
+SUBS.append(Sub("C05.ad-statistic-sweep", adsweep_oracle,
+                enumerate=adsweep_enum, shards=(16, 16), budget=(600, 3600),
+                bucket=lambda msg: bucket(msg.split("]: ", 1)[-1])))
